@@ -145,8 +145,9 @@ BadState(proto, p) == RawCart(proto, p)[1] = 9 \/ RawSph(proto, p)[1] = 9
                       \/ (HasAll(proto, ColNames) /\ HasR(proto, "isColorInvalid") /\ ~(IsFin(IV(p, Pos(proto, "isColorInvalid"))) /\ Val(IV(p, Pos(proto, "isColorInvalid"))) \in {0, 1}))
                       \/ (HasR(proto, "intensity") /\ HasR(proto, "isIntensityInvalid") /\ ~(IsFin(IV(p, Pos(proto, "isIntensityInvalid"))) /\ Val(IV(p, Pos(proto, "isIntensityInvalid"))) \in {0, 1}))
 
-CoordEq(a, b) == a[1] = b[1] /\ (a[1] = 2 \/ (a[2] = b[2] /\ a[3] = b[3] /\ a[4] = b[4]))
-SphEq(a, b) == a[1] = b[1] /\ (a[1] = 2 \/ ((a[1] = 1 \/ a[2] = b[2]) /\ AzEq(a[3], b[3]) /\ a[4] = b[4]))
+\* (b is the expected value; components that are not exact grid values -- inputs off the lattice -- are not compared)
+CoordEq(a, b) == a[1] = b[1] /\ (a[1] = 2 \/ ~AllFin(b) \/ (a[2] = b[2] /\ a[3] = b[3] /\ a[4] = b[4]))
+SphEq(a, b) == a[1] = b[1] /\ (a[1] = 2 \/ ~AllFin(b) \/ ((a[1] = 1 \/ a[2] = b[2]) /\ AzEq(a[3], b[3]) /\ a[4] = b[4]))
 
 \* colour / intensity presence
 ColorStored(proto, p) == HasAll(proto, ColNames) /\ (~HasR(proto, "isColorInvalid") \/ Val(IV(p, Pos(proto, "isColorInvalid"))) = 0)
